@@ -336,14 +336,30 @@ class RefArchive:
 
 # --------------------------------------------------------------------- writer
 
-def _compress_unit(data, method):
-    """Per-unit rule of the format: store compressed (mask byte + stream) only if smaller."""
+def stormlib_window_bits(n):
+    """The deflate window StormLib's writer picks from the unit length (Compress_ZLIB): a standard RFC 1950 stream whose
+    header byte is 0x48/0x58/0x68 rather than 0x78. zlib itself widens 8 to 9."""
+    for bits, lim in ((9, 0x200), (10, 0x400), (11, 0x800), (12, 0x1000), (13, 0x2000), (14, 0x4000)):
+        if n <= lim:
+            return bits
+    return 15
+
+
+def _compress_unit(data, method, zparams=None):
+    """Per-unit rule of the format: store compressed (mask byte + stream) only if smaller.
+    zparams: None = zlib defaults (level 6, 32 KiB window) / bzip2 level 9; ("stormlib",) = window sized after the unit;
+    (level, wbits) = explicit zlib parameters; bzip2 takes the level."""
     if method == 0 or len(data) == 0:
         return data
     if method == 0x02:
-        body = zlib.compress(data, 6)
+        if zparams is None:
+            body = zlib.compress(data, 6)
+        else:
+            level, wbits = (6, stormlib_window_bits(len(data))) if zparams[0] == "stormlib" else zparams
+            co = zlib.compressobj(level, zlib.DEFLATED, wbits)
+            body = co.compress(data) + co.flush()
     elif method == 0x10:
-        body = bz2.compress(data, 9)
+        body = bz2.compress(data, 9 if zparams is None or zparams[0] == "stormlib" else max(1, min(9, zparams[0])))
     else:
         raise RefError("writer supports none/zlib/bzip2 only")
     if 1 + len(body) < len(data):
@@ -352,7 +368,7 @@ def _compress_unit(data, method):
 
 
 class RefFile:
-    def __init__(self, name, data, method=0, encrypt=False, fix_key=False, single_unit=False, flags_extra=0, raw_stored=None):
+    def __init__(self, name, data, method=0, encrypt=False, fix_key=False, single_unit=False, flags_extra=0, raw_stored=None, zparams=None):
         self.name = name            # bytes or str: the name hashed into the hash table (and used for the key)
         self.data = bytes(data)
         self.method = method
@@ -361,6 +377,7 @@ class RefFile:
         self.single_unit = single_unit
         self.flags_extra = flags_extra   # e.g. FLAG_PATCH_FILE
         self.raw_stored = raw_stored     # if set: store these bytes verbatim (used for patch entries)
+        self.zparams = zparams           # see _compress_unit
 
 
 def write_archive(files, version=1, shift=3, hash_size=None, prefix=0, user_data=False, deleted_probes=0,
@@ -408,7 +425,7 @@ def write_archive(files, version=1, shift=3, hash_size=None, prefix=0, user_data
             flags |= FLAG_SINGLE_UNIT
         key = file_key(f.name, pos, fsize, flags) if f.encrypt else 0
         if single or fsize == 0:
-            unit = _compress_unit(f.data, f.method)
+            unit = _compress_unit(f.data, f.method, f.zparams)
             if f.method:
                 flags |= FLAG_COMPRESS
             stored = encrypt_bytes(unit, key) if f.encrypt else unit
@@ -424,7 +441,7 @@ def write_archive(files, version=1, shift=3, hash_size=None, prefix=0, user_data
         else:
             flags |= FLAG_COMPRESS
             nsec = (fsize + ss - 1) // ss
-            units = [_compress_unit(f.data[i * ss:(i + 1) * ss], f.method) for i in range(nsec)]
+            units = [_compress_unit(f.data[i * ss:(i + 1) * ss], f.method, f.zparams) for i in range(nsec)]
             offs = [4 * (nsec + 1)]
             for u in units:
                 offs.append(offs[-1] + len(u))
